@@ -380,7 +380,11 @@ def run(ctx, idx):
             for c in ast.walk(dd.value):
                 if isinstance(c, ast.Call) and K.src(c.func) == "Counter" and c.args and isinstance(c.args[0], (ast.GeneratorExp, ast.ListComp)):
                     g0 = c.args[0]
-                    keyexprs.append(K.src(g0.elt).replace(g0.generators[0].target.id + ".", "$.", 1) if isinstance(g0.generators[0].target, ast.Name) else K.src(g0.elt))
+                    elt_ = g0.elt
+                    if isinstance(elt_, ast.Call) and isinstance(elt_.func, ast.Name) and elt_.func.id == "getattr" and len(elt_.args) >= 2 and isinstance(elt_.args[1], ast.Constant) and isinstance(elt_.args[1].value, str):
+                        # getattr(x, "name", default): the attribute itself wherever it exists (CommandMeta sets `name` on every command class)
+                        elt_ = ast.Attribute(value=elt_.args[0], attr=elt_.args[1].value, ctx=ast.Load())
+                    keyexprs.append(K.src(elt_).replace(g0.generators[0].target.id + ".", "$.", 1) if isinstance(g0.generators[0].target, ast.Name) else K.src(elt_))
         svv = stores[0].meta.get("value")
         lookup_key = None
         if isinstance(svv, ast.DictComp) and isinstance(svv.generators[0].target, ast.Name):
